@@ -88,21 +88,21 @@ func genScript(seed int64, n int, T uint32) []sop {
 }
 
 type runCfg struct {
-	hip       atree.HashInputProvider // nil = injective hx.HashInput
-	T         uint32
-	workers   int
-	nondet    bool
-	jitter    bool
+	hip     atree.HashInputProvider // nil = injective hx.HashInput
+	T       uint32
+	workers int
+	nondet  bool
+	jitter  bool
 	// schedule of maintenance actions before op i: bit 0 commit, bit 1 drop cache, bit 2 commit+reopen
 	maint func(i int) int
 }
 
 type runOut struct {
-	obs      []string          // observation per op
-	regs     map[string]string // final registers (hex) after the final commit
-	logs     []string          // ordered ledger call log of every scripted commit
-	content  string            // final logical content
-	err      string
+	obs     []string          // observation per op
+	regs    map[string]string // final registers (hex) after the final commit
+	logs    []string          // ordered ledger call log of every scripted commit
+	content string            // final logical content
+	err     string
 }
 
 func regsOf(l *hx.Ledger) map[string]string {
@@ -456,9 +456,19 @@ func cacheStream(cfg *Config) *hx.Stats {
 		st.Ops += len(script)
 		distinct[regsHash(ref.regs)] = true
 		scheds := map[string]func(i int) int{
-			"commit-after-every-op":        func(i int) int { return 1 },
-			"dropcache-after-every-commit": func(i int) int { if i > 0 { return 1 | 2 }; return 0 },
-			"reopen-after-every-op":        func(i int) int { if i > 0 { return 4 }; return 0 },
+			"commit-after-every-op": func(i int) int { return 1 },
+			"dropcache-after-every-commit": func(i int) int {
+				if i > 0 {
+					return 1 | 2
+				}
+				return 0
+			},
+			"reopen-after-every-op": func(i int) int {
+				if i > 0 {
+					return 4
+				}
+				return 0
+			},
 			"random": func() func(i int) int {
 				r := rand.New(rand.NewSource(rng.Int63()))
 				return func(i int) int {
@@ -476,7 +486,15 @@ func cacheStream(cfg *Config) *hx.Stats {
 					return 0
 				}
 			}(),
-			"every-7th": func(i int) int { if i%7 == 6 { return 4 }; if i%7 == 3 { return 3 }; return 0 },
+			"every-7th": func(i int) int {
+				if i%7 == 6 {
+					return 4
+				}
+				if i%7 == 3 {
+					return 3
+				}
+				return 0
+			},
 		}
 		for _, name := range hx.SortedKeys(scheds) {
 			o := runScript(script, runCfg{T: T, workers: 2, maint: scheds[name]})
